@@ -97,7 +97,18 @@ def replay_hist(data, hist, tables):
         if s == "reparse":
             nre += 1
             where = f"reparse{nre}"
-            p = Pickled.load(data)
+            # a re-parsed copy of the same bytes: from the byte string, from a stream in which they sit behind other bytes,
+            # or as the second member of a stack (where the bytes are found is not part of the bytes)
+            if nre % 3 == 1:
+                p = Pickled.load(data)
+            elif nre % 3 == 2:
+                import io
+                st = io.BytesIO(b"\x00" * 7 + data + b"trailer")
+                st.seek(7)
+                p = Pickled.load(st)
+            else:
+                from fickling.fickle import StackedPickle
+                p = StackedPickle.load(b"K\x01." + data)[1]
         elif s in ("fresh1", "fresh2"):
             where = s
         elif where in ("fresh1", "fresh2"):
